@@ -170,7 +170,8 @@ Definition pfind (t : ptable) (L key h : Z) : outcome (option (Z * Z)) :=
   let start := Gen_Base.GetStartBucketIndex h bc in
   match pbucket_find (t start) key h with
   | Ok r =>
-    if r =? 0 then pfind_loop (S (Z.to_nat bc)) t bc start 1 (Gen_Base.GetMaxProbe L) key h
+    (* the loop `for (probe = 1; WasFull() && probe <= maxProbe; ++probe)` runs at most maxProbe times: that is its fuel *)
+    if r =? 0 then pfind_loop (S (Z.to_nat (Gen_Base.GetMaxProbe L))) t bc start 1 (Gen_Base.GetMaxProbe L) key h
     else Ok (Some (start, r - 1))
   | Stuck => Stuck | Fuel => Fuel | Exn => Exn
   end.
